@@ -770,16 +770,18 @@ theorem exportTo_containers_as_documented (s : JSrc) (d : Dest) (hwf : s.WF) (hd
 theorem exportTo_maps_as_documented (s : JSrc) : mech s .map = docMap s :=
   typed_export_map_as_documented s
 
-/-- identity cache of the typed export methods — deliberately weaker than the property: a Set into a Go map type is
-    excluded, the current code does not cache there (next theorem). -/
-theorem exportTo_containers_cached_partial (k : SrcKind) (d : Dest) (h : ¬ (k = .set ∧ d = .map)) :
-    cachesTyped k d = true :=
-  typed_export_identity_cached_partial k d h
+/-- identity cache of the typed export methods, now without exception (6fa4053): every implementation class, into
+    every destination type, enters the container it builds into the identity cache.  (The content is carried by the
+    regenerated facts of `Tie.export_dispatch_ok` — every per-class body calls putTyped — and by the exhaustive DS
+    stream; the old mechanism differed exactly at Set-into-map.) -/
+theorem exportTo_containers_cached (k : SrcKind) (d : Dest) :
+    cachesTyped k d = true ∧ (¬ (k = .set ∧ d = .map) → cachesTypedOld k d = cachesTyped k d) :=
+  ⟨typed_export_identity_cached k d, cachesTypedOld_agrees k d⟩
 
-/-- FINDING (current code): setObject.exportToMap never enters its map into the identity cache:
-    `var s = new Set([1]); [s, s]` into `[]map[interface{}]interface{}` gives two different Go maps. -/
-theorem set_exportToMap_not_cached_witness : cachesTyped .set .map = false :=
-  set_into_map_not_cached_witness
+/-- REGRESSION RECORD (before 6fa4053): setObject.exportToMap never entered its map into the identity cache:
+    `var s = new Set([1]); [s, s]` into `[]map[interface{}]interface{}` gave two different Go maps. -/
+theorem set_exportToMap_not_cached_prefix_witness : cachesTypedOld .set .map = false :=
+  set_into_map_not_cached_prefix_witness
 
 /-- every source object of the exhaustive D / DS correspondence catalogue (20 named sources × 7 destinations) satisfies the
     well-formedness hypothesis of `exportTo_containers_as_documented`: the theorem applies to every compared line. -/
